@@ -226,7 +226,7 @@ UNDECIDED_PATTERNS = [
 ]
 
 
-def classify_kani(r):
+def classify_kani(r, o=None):
     """-> 'ok' | 'violation' | 'undecided' | 'vacuous'"""
     r["failed_checks"] = [f for f in r["failed_checks"] if not any(re.search(p, f["check"]) for p in IGNORED_CHECKS)]
     if r["status"] == "failed" and not r["failed_checks"] and r.get("failed", 0) > 0 and "NaN on" in r["raw"]:
@@ -242,7 +242,11 @@ def classify_kani(r):
     fcs = r["failed_checks"]
     if not fcs:
         return "undecided"
-    real = [f for f in fcs if not any(re.search(p, f["check"]) for p in UNDECIDED_PATTERNS)]
+    pats = UNDECIDED_PATTERNS
+    if o is not None and o.get("termination"):
+        # termination within the harness's unwinding bound is part of this obligation's contract
+        pats = [p for p in pats if p not in (r"unwinding assertion", r"recursion unwinding")]
+    real = [f for f in fcs if not any(re.search(p, f["check"]) for p in pats)]
     return "violation" if real else "undecided"
 
 
@@ -497,7 +501,7 @@ def main(argv):
             for o in kobs:
                 r = kres[o["harness"]]
                 results[o["id"]] = r
-                c = classify_kani(r)
+                c = classify_kani(r, o)
                 r["class"] = c
                 log("[kani ] %-8s %-34s %s (%s checks, %ss)%s" % (o["id"], o["harness"], r["status"], r["checks"], r["time_s"],
                                                                "" if c == "ok" else " -> " + c))
